@@ -91,8 +91,12 @@ package queue
 // (two queues built from the same configuration and seed draw the same stream).
 //@ func New
 //@   props C20 C12
-//@   requires forall i int :: 0 <= i && i < len(values) ==> values[i] != nil
+//@   requires forall i int :: 0 <= i && i < len(values) ==> FakeMsgWf(values[i]) && allocated(values[i].Timestamp)
+//@   modifies heap(fpb.Value.Timestamp), heap([][]*value), heap([]*value)
+//@   invariant 0: fresh(u) && QInv(u) && u.r != nil && (seed != 0 ==> randSeed(u.r) == seed)
+//@     && (forall i int :: 0 <= i && i < len(values) ==> FakeMsgWf(values[i]) && allocated(values[i].Timestamp))
 //@   ensures [seeded-as-asked C20] seed != 0 ==> res0 != nil && res0.r != nil && randSeed(res0.r) == seed
+//@   ensures [queue-built C20] QInv(res0)
 
 //@ func newValue
 //@   props C20 C12
@@ -112,6 +116,9 @@ package queue
 //@   ensures [emitted-message-left-alone C20] old(v.v).Repeat == old(v.v.Repeat) && (old(v.v.Timestamp) != nil ==> old(v.v.Timestamp).Timestamp == old(v.v.Timestamp.Timestamp))
 //@   ensures [repeat-counts-down C20] old(v.v.Repeat) > 1 ==> v.v != nil && v.v != old(v.v) && v.v.Repeat == old(v.v.Repeat) - 1
 //@   ensures [unbounded-stays-unbounded C20] old(v.v.Repeat) <= 0 ==> v.v != nil && v.v.Repeat == old(v.v.Repeat)
+//@   ensures [only-the-new-message-changes C20] (forall x *fpb.Timestamp :: x != nil && !fresh(x) ==> x.Timestamp == old(x.Timestamp)) && (forall m *fpb.Value :: m != nil && !fresh(m) ==> m.Repeat == old(m.Repeat))
+//@   ensures [still-a-generator C20] v.v != nil ==> ValWf(v) && fresh(v.v) && v.r == old(v.r) && (res0 == nil ==> v.v.Timestamp != nil && fresh(v.v.Timestamp))
+//@   ensures [advances-in-time C20] res0 == nil && v.v != nil && old(v.v.Timestamp) != nil && old(TsOf(v)) + old(v.v.Timestamp.DeltaMax) <= 9223372036854775807 ==> TsOf(v) >= old(TsOf(v))
 
 // ---- the queue: buckets by timestamp, ascending --------------------------------------
 // Every bucket is non-empty, its generators are well formed, have a timestamp and share
@@ -124,22 +131,52 @@ package queue
 //@ pred Ascending(u *UpdateQueue) := forall a int, b int :: 0 <= a && a < b && b < len(u.q) ==> TS(u.q[a][0]) < TS(u.q[b][0])
 // (buckets do not share backing arrays: each starts as a one-element literal and is only appended to or re-sliced)
 //@ pred OwnArrays(u *UpdateQueue) := forall a int, b int :: 0 <= a && a < b && b < len(u.q) ==> arr(u.q[a]) != arr(u.q[b])
-//@ pred QInv(u *UpdateQueue) := u != nil && BucketsWf(u) && Ascending(u) && OwnArrays(u)
+// (a generator is queued at most once)
+//@ pred Distinct(u *UpdateQueue) := forall i int, j int, k int, l int :: 0 <= i && i < len(u.q) && 0 <= j && j < len(u.q[i]) && 0 <= k && k < len(u.q) && 0 <= l && l < len(u.q[k]) && (i != k || j != l) ==> u.q[i][j] != u.q[k][l]
+//@ pred NotQueued(u *UpdateQueue, v *value) := forall i int, j int :: 0 <= i && i < len(u.q) && 0 <= j && j < len(u.q[i]) ==> u.q[i][j] != v
+//@ pred QInv(u *UpdateQueue) := u != nil && BucketsWf(u) && Ascending(u) && OwnArrays(u) && Distinct(u)
 
 // addValue files the generator under its timestamp: the binary search ends at a bucket
 // with exactly that timestamp (the generator is appended to it), or at the one position
 // where every earlier bucket is older and every later one newer (a new bucket is
-// inserted there). That inserting at such a position keeps QInv is not machine-checked
-// (nested appends of slices of slices; argued in DESIGN.md).
+// inserted there), and the queue invariant holds again afterwards.
 //@ func (*UpdateQueue).addValue
 //@   props C20 C12
-//@   requires QInv(u) && ValWf(v) && allocated(v.v) && allocated(v.v.Timestamp)
+//@   requires QInv(u) && ValWf(v) && allocated(v.v) && allocated(v.v.Timestamp) && NotQueued(u, v)
 //@   modifies u.q, u.latest, v.v.Timestamp, heap([][]*value), heap([]*value)
-//@   invariant 0: 0 <= l && l <= r && r <= len(u.q) && u.q == old(u.q) && BucketsWf(u) && Ascending(u) && OwnArrays(u) && v.v.Timestamp != nil && t == TS(v)
+//@   invariant 0: 0 <= l && l <= r && r <= len(u.q) && u.q == old(u.q) && BucketsWf(u) && Ascending(u) && OwnArrays(u) && Distinct(u) && NotQueued(u, v) && v.v.Timestamp != nil && t == TS(v)
 //@     && (forall i int :: 0 <= i && i < l ==> TS(u.q[i][0]) < t) && (forall i int :: r <= i && i < len(u.q) ==> TS(u.q[i][0]) > t)
 //@   assert at builtin append#0: [new-bucket-at-the-sorted-position C20] l == r && (forall i int :: 0 <= i && i < r ==> TS(u.q[i][0]) < t) && (forall i int :: r <= i && i < len(u.q) ==> TS(u.q[i][0]) > t)
 //@   assert at builtin append#2: [joins-the-bucket-of-its-timestamp C20] 0 <= i && i < len(u.q) && TS(u.q[i][0]) == t
 //@   ensures [buckets-wf C20] BucketsWf(u)
 //@   ensures [ascending C20] Ascending(u)
 //@   ensures [own-arrays C20] OwnArrays(u)
+//@   ensures [queued-once C20] Distinct(u)
+//@   ensures [default-timestamp-when-missing C20] v.v.Timestamp != nil && (old(v.v.Timestamp) != nil ==> v.v.Timestamp == old(v.v.Timestamp)) && (old(v.v.Timestamp) == nil ==> fresh(v.v.Timestamp) && v.v.Timestamp.Timestamp == 0)
 //@   ensures [latest-tracks-the-maximum C20] u.latest == ite(TS(v) > old(u.latest), TS(v), old(u.latest))
+
+// Next emits the message of the first generator of the first bucket - the earliest
+// timestamp in the queue - advances that generator and files it again unless its repeats
+// are exhausted; the queue invariant holds again afterwards.
+//@ func (*UpdateQueue).Next
+//@   props C20 C12
+//@   arith wrap
+//@   requires QInv(u)
+//@   modifies u.q, u.latest, u.duration, heap(value.v), heap(fpb.Value.Timestamp), heap([][]*value), heap([]*value), heap(fpb.Value.Repeat), heap(fpb.Timestamp.Timestamp), heap(fpb.IntValue.Value), heap(fpb.UintValue.Value), heap(fpb.DoubleValue.Value),
+//@     heap(fpb.StringValue.Value), heap(fpb.BoolValue.Value), heap(fpb.StringListValue.Value), heap(fpb.IntList.Options), heap(fpb.UintList.Options), heap(fpb.DoubleList.Options), heap(fpb.StringList.Options), heap(fpb.BoolList.Options),
+//@     heap([]int64), heap([]uint64), heap([]float64), heap([]string), heap([]bool)
+//@   ensures [queue-stays-ordered C20] res1 == nil ==> QInv(u)
+//@   ensures [exhausted-queue-returns-nothing C20] old(len(u.q)) == 0 ==> res0 == nil && res1 == nil
+//@   ensures [earliest-first C20] old(len(u.q)) > 0 && res1 == nil ==> res0 == box(old(u.q[0][0].v))
+//@   ensures [emitted-message-left-alone C20] old(len(u.q)) > 0 && res1 == nil ==> old(u.q[0][0].v).Repeat == old(u.q[0][0].v.Repeat) && old(u.q[0][0].v.Timestamp).Timestamp == old(u.q[0][0].v.Timestamp.Timestamp)
+
+//@ func (*UpdateQueue).Add
+//@   props C20 C12
+//@   requires QInv(u) && v != nil && u.r != nil && FakeMsgWf(v) && allocated(v.Timestamp)
+//@   modifies u.q, u.latest, heap(fpb.Value.Timestamp), heap([][]*value), heap([]*value)
+//@   ensures QInv(u)
+
+//@ func (*UpdateQueue).Latest
+//@   props C20 C12
+//@   requires u != nil
+//@   ensures res0 == u.latest
